@@ -21,12 +21,18 @@ token; inventories: id -> entries (file, name token, text revision, content toke
    `perRevision` (InterDifferingSerializer: per sent revision the entries none of its own parents' inventories
    has); for targets supporting external lookups also the parent inventories StreamSink asks for.
  * `fetchSeq` - sequences of fetches from one source.
+ * Model/C03Stacked.lean - a source STACKED on a fallback behind the smart server: `served` (a server recreating a
+   search recipe in its own graph), `chainRevs` (RemoteStreamSource.missing_parents_chain: stacked part, then the
+   search refined by what was seen and what that references, sent to the fallback), `unionRepo`, `chainCopy`.
 Theorems (Props/C03.lean, all unbounded): the one-batch set (anc_total ... fetch_consistent), and for every batch
 size n >= 1 and history length: walkB_total, missingB_sound / _behind / _closed / _held_nil, fetchB_monotone /
 _complete / _faithful / _testament / _texts_faithful / _consistent (both kinds of copy; perRevision needs an
 acyclic history: perRevision_cyclic_witness), fetchB_idempotent(+_acyclic), fetchBH_perfile_faithful (per-file
 parents), fetch(B)_preserves_closed / _agree, fetchSeq_invariant and fetchSeq_from_empty (no hypothesis on the
-target: any sequence of fetches from a consistent source into an empty repository gives faithful complete copies).
+target: any sequence of fetches from a consistent source into an empty repository gives faithful complete copies),
+stacked_chain_eq_union / stacked_chain_records_eq_union (fetching from a repository stacked on a self-contained
+fallback delivers exactly the revisions, records and inventories a fetch from the union repository delivers, for
+every search) and chain_left_parent_only_witness (recording only left-hand parents loses fallback-only revisions).
 
 T2: generated histories are built in two "home" repositories of the source format with BranchBuilder (merges,
 ghost parents that exist nowhere, ghost parents that exist in the other home, renames, deletions, kind variety,
@@ -46,6 +52,11 @@ from which all three are inside the batch; plus mid-history-then-tip fetches in 
 search alone against targets holding ARBITRARY subsets of the source revisions for batch sizes 1, 2, 3, 7, 50.
 On knit-delta targets texts the stream filter left out may still arrive as compression parents
 (get_stream_for_missing_keys): there the correspondence accepts extra texts, never missing ones.
+"stacked" scenarios: the history lives in one home; a fallback F takes the ancestry of a trunk revision (or of
+arbitrary ones), a repository S stacked on F takes a feature tip that merges trunk revisions across the boundary
+(trunk parent in the right-hand or in either position, never an ancestor of the other parent); unstacked targets
+(2a, 1.9, 1.9-rich-root, pack-0.92; empty or partially filled) fetch from bzr://.../S opened through its branch (a
+RemoteRepository with a fallback).  The source state sent to the model is the UNION of S and F.
 For every fetch the abstract state of source and target before the fetch is sent to the Lean driver (`fetchb`:
 batched search, per-revision or filtered copy, per-file parents) and its prediction (error kind, missing revision
 set, and the FULL records of the target afterwards: revision id:metadata:parents, inventory entries, text content
@@ -72,6 +83,11 @@ Findings on the unchanged tree (reported with family slugs computed from the fai
                                                     (every other format pair)
  chk-/xml-stream-excludes-parent-the-target-lacks   the same exclusion when the target has a ghost the source has and
                                                     find_ghosts=False
+ stacked-smart-source-rich-root-upgrade-root-parents-not-heads    1.9 (non-rich-root) repository stacked on a
+                                                    fallback, fetched over bzr:// into 2a: the root texts are generated
+                                                    server-side from the stacked repository WITHOUT its fallback, so
+                                                    heads() keeps a parent that is an ancestor of another through
+                                                    fallback-only revisions (/var/tmp/imp-C03/repro_stacked_root_parents.py)
  fetch-fails-when-target-has-a-ghost-the-source-has:<Exception>   the fetch raises in that situation
                                                     (:BzrCheckError = InterDifferingSerializer into 2a,
                                                     /var/tmp/imp-C03/repro_ids_bzrcheckerror.py)
@@ -87,6 +103,8 @@ T = caught by the correspondence only):
  M11 StreamSource.get_stream streams only the newest version of every altered file          O
  M12 batch loop `while len(next_revs) <= batch_size` (off by one)                           T (long scenario, batched tie)
  M13 InterBranch.fetch drops the stop revision from the fetch spec (pull/push)              O (pull mode)
+ M14 RemoteStreamSource.missing_parents_rev_handler records only the left-hand parent        O (stacked scenarios:
+     (seeded change C03b)                                                                    target lacks ancestors)
  H1  harmless rewrite of the have_revs union in _walk_to_common_revisions                   clean
  H2  harmless rewrite of ghosts_to_check / null_set handling                                clean
  (a mutant of RemoteRepository._serialise_search_recipe is not on the fetch path: C33 covers it)
@@ -112,10 +130,13 @@ THEOREMS = [
     # the hypotheses are invariants; sequences; per-file history
     "fetchB_preserves_closed", "fetchB_preserves_agree", "fetch_preserves_closed", "fetch_preserves_agree",
     "fetchSeq_invariant", "fetchSeq_from_empty", "fetchBH_perfile_faithful",
+    # a source stacked on a fallback behind the smart server = the union repository
+    "stacked_chain_eq_union", "stacked_chain_records_eq_union", "chain_left_parent_only_witness",
 ]
 RULE = ("scenario = (seed, source format, target format, transport mode local|remote-src|remote-tgt|pull|push, kind); "
         "random/ghost/fork kinds: a generated history of 6-16 revisions in two home repositories (search batch size 50, "
-        "or 1/2/3/5 in ~45 % of them); long kind: 110-200 revisions at the default batch size; case = one fetch (source "
+        "or 1/2/3/5 in ~45 % of them); long kind: 110-200 revisions at the default batch size; stacked kind: 8-25 revisions split "
+        "between a fallback and a repository stacked on it, served over bzr://; case = one fetch (source "
         "home, target, revision, find_ghosts) performed on the target's current contents, or one revision search "
         "against a target holding an arbitrary subset of the source; non-trivial = the fetch copies >= 1 revision "
         "while the target already holds >= 1 revision of the source ancestry, or meets a ghost (search-only: a "
@@ -462,6 +483,29 @@ def read_state(path):
     return st
 
 
+def read_union(W, name):
+    """state of the repository `name`; for a stacked repository the union with its fallbacks (what a fetch from
+    it sees), own keys first"""
+    st = read_state(W.path(name))
+    for fb in getattr(W, "union", {}).get(name, [])[1:]:
+        other = read_state(W.path(fb))
+        for kind in ("revs", "invs", "texts", "tparents", "roots"):
+            for k, v in other[kind].items():
+                st[kind].setdefault(k, v)
+    return st
+
+
+def open_src(W, name, mode=None):
+    """the source repository object: through the smart server for remote-src; with its fallbacks when stacked"""
+    stacked = name in getattr(W, "union", {})
+    if mode == "remote-src":
+        return W.server.open_repo(name, via_branch=stacked)
+    if stacked:
+        from breezy.branch import Branch
+        return Branch.open(W.path(name)).repository
+    return open_repo(W.path(name))
+
+
 class Numbering:
     def __init__(self):
         self.rev = {}
@@ -576,9 +620,11 @@ class Server:
     def url(self, name):
         return "bzr://127.0.0.1:%d/%s/" % (self.srv.port, name)
 
-    def open_repo(self, name):
+    def open_repo(self, name, via_branch=False):
         from breezy.controldir import ControlDir
-        r = ControlDir.open(self.url(name)).open_repository()
+        cd = ControlDir.open(self.url(name))
+        # a stacked repository gets its fallbacks from its branch
+        r = cd.open_branch().repository if via_branch else cd.open_repository()
         self.opened.append(r)
         return r
 
@@ -704,14 +750,16 @@ def do_fetch(ctx, W, case, src_name, tgt_name, rev, find_ghosts, mode, batch):
     """perform tgt.fetch(src, rev) on the real repositories, run the oracle, queue the model line"""
     from breezy import errors
     fmt_s, fmt_t = W.fmt[src_name], W.fmt[tgt_name]
-    pre_s = read_state(W.path(src_name))
+    pre_s = read_union(W, src_name)
     pre_t = read_state(W.path(tgt_name))
+    if src_name in getattr(W, "union", {}):
+        ctx.count("source:stacked-on-a-fallback")
     if mode in ("pull", "push"):
         if rev not in pre_s["revs"] or not W.has_branch.get(tgt_name) or not W.has_branch.get(src_name):
             mode = "local"
         else:
             find_ghosts = False        # Branch.pull / push search with NotInOtherForRevs(find_ghosts=False)
-    src = W.server.open_repo(src_name) if mode == "remote-src" else open_repo(W.path(src_name))
+    src = open_src(W, src_name, mode)
     tgt = W.server.open_repo(tgt_name) if mode == "remote-tgt" else open_repo(W.path(tgt_name))
     outcome = "ok"
     real_missing = None
@@ -813,7 +861,7 @@ def do_fetch(ctx, W, case, src_name, tgt_name, rev, find_ghosts, mode, batch):
             V("fetch copied revisions outside the ancestry of the requested revision: %r" % extra[:4])
         # ---------------- faithfulness for every revision of the ancestry now in the target
         upgraded_root = (not pre_s["rich"]) and pre_t["rich"]
-        srepo = open_repo(W.path(src_name))
+        srepo = open_src(W, src_name)
         trepo = open_repo(W.path(tgt_name))
         from breezy.bzr.testament import Testament
         corrupt = False
@@ -910,9 +958,16 @@ def do_fetch(ctx, W, case, src_name, tgt_name, rev, find_ghosts, mode, batch):
                         heads_ = [p_ for p_ in ps_ if not any(q_ != p_ and p_ in src_ancestry(pre_s, q_) for q_ in ps_)]
                         want_rp = tuple(dict.fromkeys((rt[0], p_) for p_ in heads_))
                         if got_rp is None or tuple(got_rp) != want_rp:
+                            fam = None
+                            if got_rp is not None and src_name in getattr(W, "union", {}) and mode == "remote-src" \
+                                    and set(want_rp) < set(got_rp) \
+                                    and all(k_[0] == rt[0] and k_[1] in ps_ for k_ in got_rp):
+                                # the smart server generates the root texts from the stacked repository opened
+                                # WITHOUT its fallback: heads() cannot see ancestry through fallback-only revisions
+                                fam = "stacked-smart-source-rich-root-upgrade-root-parents-not-heads"
                             V("per-file parents of the synthesised root text %r are %r, expected %r (the parents of %r "
                               "that are heads); the target held %r before this fetch"
-                              % (rkey, got_rp, want_rp, r, sorted(set(ps_) & set(pre_t["revs"]))))
+                              % (rkey, got_rp, want_rp, r, sorted(set(ps_) & set(pre_t["revs"]))), family=fam)
                 if r in new:
                     try:
                         ts = Testament.from_revision(srepo, r).as_short_text()
@@ -930,7 +985,9 @@ def do_fetch(ctx, W, case, src_name, tgt_name, rev, find_ghosts, mode, batch):
         elif new:
             ck = (W.root, src_name, tuple(sorted(pre_s["revs"])))
             if ck not in _check_cache:
-                _check_cache[ck] = check_problems(W.path(src_name), [h for h in pre_s["revs"]])
+                # (a stacked source is checked through the unstacked repository holding the same history)
+                _check_cache[ck] = check_problems(W.path(getattr(W, "check_ref", {}).get(src_name, src_name)),
+                                                  [h for h in pre_s["revs"]])
             sp = dict(_check_cache[ck])
             tp = check_problems(W.path(tgt_name), sorted(post_t["revs"]))
             sensitive = set(W.ghosty_revs)
@@ -966,7 +1023,7 @@ def do_fetch(ctx, W, case, src_name, tgt_name, rev, find_ghosts, mode, batch):
                     V("check() of the target fails: %s" % v)
         # ---------------- second fetch transfers nothing
         if not corrupt:
-            src2 = W.server.open_repo(src_name) if mode == "remote-src" else open_repo(W.path(src_name))
+            src2 = open_src(W, src_name, mode)
             tgt2 = W.server.open_repo(tgt_name) if mode == "remote-tgt" else open_repo(W.path(tgt_name))
             try:
                 with src2.lock_read(), tgt2.lock_read():
@@ -1080,6 +1137,8 @@ def run_scenario(ctx, key, stop_at=None):
                 InterVersionedFileRepository._walk_to_common_revisions_batch_size = small
         if kind == "long":
             return run_long(ctx, key, W, rng, batch, stop_at)
+        if kind == "stacked":
+            return run_stacked(ctx, key, W, rng, batch, stop_at)
         NUL_FAMILY[0] = rng.random() < 0.4
         ctx.count("contents:with-nul-bytes" if NUL_FAMILY[0] else "contents:binary-without-nul")
         fork = None
@@ -1223,6 +1282,149 @@ def run_scenario(ctx, key, stop_at=None):
         if W.server is not None:
             W.server.stop()
         shutil.rmtree(W.root, ignore_errors=True)
+
+
+# ------------------------------------------------------------------ a stacked source behind the smart server
+def stacked_shape(rng, n, right):
+    """one home: a random base DAG; then a trunk line and a feature line that both start at the base tip; the
+    feature line merges trunk revisions (the trunk parent in the right-hand position when `right`, else in either
+    position; never an ancestor of the other parent) and goes on with random revisions and merges; a few ghost
+    parents.  Returns (shape, trunk tip, feature tip): a fallback holding the trunk tip and a repository stacked on
+    it holding the feature tip split the history at merges across the boundary."""
+    r = lambda i: b"r%02d" % i  # noqa: E731
+    shape = [("A", [], [])]
+    nbase = rng.randint(1, max(1, n // 3))
+    for i in range(2, nbase + 1):
+        left = r(rng.randint(max(1, i - 2), i - 1))
+        ps, gh = [left], []
+        if i > 2 and rng.random() < 0.35:
+            o = r(rng.randint(1, i - 1))
+            if o != left:
+                ps.append(o)
+        shape.append(("A", ps, gh))
+    i = nbase + 1
+    base = r(nbase)
+    feat = None
+    trunk = base
+    ntrunk = 0
+    while i <= n or ntrunk == 0 or feat is None:
+        k = rng.random()
+        if feat is None or k < 0.3:
+            # feature line moves on
+            ps, gh = [feat or base], []
+            if rng.random() < 0.08:
+                gh = [b"ghost%d" % i]
+                ps = ps + gh
+            shape.append(("A", ps, gh))
+            feat = r(i)
+        elif k < 0.6 or ntrunk == 0:
+            shape.append(("A", [trunk], []))
+            trunk = r(i)
+            ntrunk += 1
+        else:
+            # feature merges the trunk tip (or an older trunk/base revision)
+            o = trunk if rng.random() < 0.7 else r(rng.randint(1, i - 1))
+            if o == feat:
+                o = trunk
+            ps = [feat, o] if (right or rng.random() < 0.5) else [o, feat]
+            shape.append(("A", ps, []))
+            feat = r(i)
+        i += 1
+    # make sure the feature tip is (a descendant of) a merge of the current trunk tip
+    shape.append(("A", [feat, trunk] if (right or rng.random() < 0.5) else [trunk, feat], []))
+    feat = r(i)
+    if rng.random() < 0.6:
+        shape.append(("A", [feat], []))
+        feat = r(i + 1)
+    return shape, trunk, feat
+
+
+def run_stacked(ctx, key, W, rng, batch, stop_at):
+    """The source is a repository S STACKED on a fallback F, opened through the smart server (a RemoteRepository
+    with a fallback: RemoteStreamSource.missing_parents_chain streams from S, then asks F for what the streamed
+    revisions reference).  The history lives completely in home A; F takes the ancestry of one or two arbitrary
+    revisions, S (a branch stacked on F) takes a later tip, so the history is split at arbitrary points, with
+    merges across the boundary in both parent positions.  Unstacked targets (empty or partially filled from A)
+    fetch revisions from bzr://.../S; the source state is the UNION of S and F."""
+    from breezy.branch import Branch
+    from breezy.branchbuilder import BranchBuilder
+    from breezy.controldir import ControlDir, format_registry
+    from breezy import transport as _mod_transport
+    seed, idx, fmt_s, fmt_t, mode, big = key[:6]
+    NUL_FAMILY[0] = False
+    shape, trunk_tip, feat_tip = stacked_shape(rng, rng.randint(6, 12 if not big else 20), right=idx % 3 != 2)
+    revs = gen_history(rng, len(shape), rng.randint(3, 6), shape=shape)
+    W.fmt = {"A": fmt_s, "F": fmt_s, "S": fmt_s, "T": fmt_t, "U": fmt_t}
+    W.union = {"S": ["S", "F"]}
+    W.check_ref = {"S": "A"}
+    W.ghosty_revs = {rv.rid for rv in revs if rv.ghosts}
+    W.has_branch = {}
+    for rv in revs:
+        for pth, (fid, kind_, content) in rv.tree.items():
+            if kind_ == "file":
+                W.spec_text[(fid, rv.rid)] = content
+    fmt = format_registry.make_controldir(fmt_s)
+    os.makedirs(W.path("A"))
+    bb = BranchBuilder(_mod_transport.get_transport(W.path("A")), format=fmt)
+    for rv in revs:
+        bb.build_snapshot(rv.parents, rv.actions, message=rv.msg, timestamp=rv.ts, timezone=rv.tz,
+                          committer=rv.committer, revision_id=rv.rid)
+    ids = [rv.rid for rv in revs]
+    full = read_state(W.path("A"))
+    # the fallback: ancestry of one or two revisions from the older part
+    fcd = ControlDir.create(W.path("F"), format=fmt)
+    frepo = fcd.create_repository()
+    fcd.create_branch()
+    # ... the trunk tip, sometimes an older trunk revision instead, sometimes one more arbitrary revision
+    tanc = sorted(src_ancestry(full, trunk_tip))
+    for f_ in [trunk_tip if rng.random() < 0.75 else rng.choice(tanc)] + \
+            ([rng.choice(ids)] if rng.random() < 0.25 else []):
+        frepo.fetch(open_repo(W.path("A")), revision_id=f_)
+    in_f = set(read_state(W.path("F"))["revs"])
+    # the stacked repository: the feature tip (or another revision the fallback lacks)
+    outside = [x for x in ids if x not in in_f]
+    if not outside:
+        ctx.count("stacked:fallback-holds-everything")
+        return batch
+    tip = feat_tip if feat_tip in outside and rng.random() < 0.8 else rng.choice(outside[len(outside) // 2:])
+    scd = ControlDir.create(W.path("S"), format=fmt)
+    scd.create_repository()
+    scd.create_branch().set_stacked_on_url("../F")
+    Branch.open(W.path("S")).pull(Branch.open(W.path("A")), overwrite=True, stop_revision=tip)
+    own = set(read_state(W.path("S"))["revs"])
+    across = [x for x in own for j, p_ in enumerate(full["revs"][x][0]) if p_ in in_f and p_ not in own]
+    for x in own:
+        ps_ = full["revs"][x][0]
+        for j, p_ in enumerate(ps_):
+            if p_ in in_f and p_ not in own:
+                ctx.count("stacked:boundary-parent-position=%d-of-%d" % (min(j, 2), min(len(ps_), 3)))
+    ctx.count("stacked:own=%d,fallback=%d" % (min(len(own), 9), min(len(in_f), 9)))
+    W.server = Server(W.root)
+    W.ext = {}
+    for t_ in "TU":
+        make_repo(W.path(t_), fmt_t)
+        W.ext[t_] = open_repo(W.path(t_))._format.supports_external_lookups
+    nstep = [0]
+
+    def fetch(src, tgt, rev, fg, m):
+        nstep[0] += 1
+        case = dict(key=list(key), step=nstep[0], src=src, tgt=tgt, rev=rev.decode(), find_ghosts=fg, mode=m)
+        do_fetch(ctx, W, case, src, tgt, rev, fg, m, batch)
+        return (stop_at is not None and nstep[0] >= stop_at) or bool(W.tainted.get(tgt))
+
+    union = src_ancestry(full, tip)
+    # T: empty target, the stacked tip; then another revision of the union (often fallback-only)
+    if not fetch("S", "T", tip, rng.random() < 0.25, "remote-src"):
+        if stop_at is None or nstep[0] < stop_at:
+            fetch("S", "T", rng.choice(sorted(union | in_f)), rng.random() < 0.3, "remote-src")
+    if stop_at is not None and nstep[0] >= stop_at:
+        return batch
+    # U: partially filled from the full repository first (a revision on either side of the boundary)
+    pre = rng.choice(sorted(in_f) if rng.random() < 0.5 else sorted(union))
+    if not fetch("A", "U", pre, False, "local"):
+        if stop_at is None or nstep[0] < stop_at:
+            fetch("S", "U", tip, False, "remote-src")
+    return batch
 
 
 # ------------------------------------------------------------------ long histories (several search batches)
@@ -1545,6 +1747,12 @@ def scenario_keys(ctx):
     if ctx.thorough():
         for j, (a, b, m) in enumerate(LONG_THOROUGH):
             keys.append((ctx.seed, i + 300 + j, a, b, m, False, "long"))
+    # a source STACKED on a fallback, served over bzr:// (RemoteStreamSource.missing_parents_chain), into unstacked
+    # targets of the smart-stream formats
+    sp = [("2a", "2a"), ("1.9", "1.9"), ("1.9", "2a"), ("1.9", "pack-0.92"), ("1.9-rich-root", "2a"), ("2a", "2a")]
+    for j in range(ctx.pick(3, 12)):
+        a, b = sp[(ctx.seed + j) % len(sp)]
+        keys.append((ctx.seed, i + 500 + j, a, b, "remote-src", ctx.thorough() and j % 3 == 0, "stacked"))
     return keys
 
 
